@@ -764,8 +764,15 @@ def maybeSendSynAck (v : VSock) (c : Ctx) : R (VSock × Ctx) :=
   | .synAckSent count => if Timer.expired v.timers.synAckResend v.pollNow then go count else pure (v, c)
   | _ => pure ({ v with timers := { v.timers with synAckResend := none } }, c)
 
+/-- an unacknowledged MTU probe as the newest segment: it may still be popped and split (D27) -/
+def probeOutstanding (v : VSock) : Bool :=
+  match v.segs.segs.getLast? with
+  | some g => g.isMtuProbe && !g.isDelivered
+  | none => false
+
 def unsentDataExists (v : VSock) (c : Ctx) : R Bool :=
   if v.unsegmentedData > 0 then pure true else
+  if v.probeOutstanding then pure true else
   match v.segs.iterForSending none with
   | none => throw ⟨(.panic "iter_mut_for_sending"), v, c⟩
   | some views => pure (views.any (fun s => s.seg.sendCount = 0))
